@@ -1,7 +1,7 @@
 //! Abstract HTTP/1.x message (RFC 7230 section 3) and its wire rendering.
 use hnv_common::*;
 
-pub struct Item { pub pre: Vec<u8>, pub tag: Vec<u8>, pub w: Option<(Vec<u8>, Vec<u8>, Vec<u8>)>, pub post: Vec<u8> }
+pub struct Item { pub pre: Vec<u8>, pub tag: Vec<u8>, pub w: Option<(Vec<u8>, Vec<u8>, Vec<u8>)>, pub post: Vec<u8>, pub upper_q: bool }
 pub enum Val { Raw(Vec<u8>), Lang(Vec<Item>) }
 pub struct H { pub name: Vec<u8>, pub o1: Vec<u8>, pub v: Val, pub o2: Vec<u8> }
 pub enum Start { Req { method: String, target: Vec<u8>, v: u8 }, Resp { v: u8, status: String, reason: Vec<u8> } }
@@ -13,7 +13,7 @@ pub fn enc_val(v: &Val) -> String {
     match v {
         Val::Raw(b) => format!("r{}", hx(b)),
         Val::Lang(items) => format!("l{}", items.iter().map(|i| {
-            let w = match &i.w { None => "n".to_string(), Some((a, b, q)) => format!("w{}_{}_{}", hx(a), hx(b), hx(q)) };
+            let w = match &i.w { None => "n".to_string(), Some((a, b, q)) => format!("{}{}_{}_{}", if i.upper_q { "W" } else { "w" }, hx(a), hx(b), hx(q)) };
             format!("{}.{}.{}.{}", hx(&i.pre), hx(&i.tag), w, hx(&i.post))
         }).collect::<Vec<_>>().join(",")),
     }
@@ -40,7 +40,7 @@ fn dec_val(t: &str) -> Val {
             let q: Vec<&str> = p[2][1..].split('_').collect();
             Some((unhex(q[0]), unhex(q[1]), unhex(q[2])))
         };
-        Item { pre: unhex(p[0]), tag: unhex(p[1]), w, post: unhex(p[3]) }
+        Item { pre: unhex(p[0]), tag: unhex(p[1]), w, post: unhex(p[3]), upper_q: p[2].starts_with('W') }
     }).collect())
 }
 pub fn decode(toks: &[&str]) -> (Msg, Vec<u8>) {
@@ -66,7 +66,7 @@ pub fn render_val(v: &Val) -> Vec<u8> {
             for (k, i) in items.iter().enumerate() {
                 if k > 0 { o.push(b','); }
                 o.extend_from_slice(&i.pre); o.extend_from_slice(&i.tag);
-                if let Some((a, b, q)) = &i.w { o.extend_from_slice(a); o.push(b';'); o.extend_from_slice(b); o.extend_from_slice(b"q="); o.extend_from_slice(q); }
+                if let Some((a, b, q)) = &i.w { o.extend_from_slice(a); o.push(b';'); o.extend_from_slice(b); o.extend_from_slice(if i.upper_q { b"Q=" } else { b"q=" }); o.extend_from_slice(q); }
                 o.extend_from_slice(&i.post);
             }
             o
